@@ -239,7 +239,7 @@ func specIsHelperName(name string) bool {
 //@   ensures[C16] code-untouched: c.code == old(c.code) && result == nil
 //
 //@ func (*converter).VarDefinition
-//@   ensures[C01,C02] line: appended(c.code, old(c.code), specAssign(specName(len(c.funcs) > 0, c.funcCounter, name, global), value)) && result == nil
+//@   ensures[C01,C02,C18] line: appended(c.code, old(c.code), specAssign(specName(len(c.funcs) > 0, c.funcCounter, name, global), value)) && result == nil
 //@   ensures[C01] frame: sameExcept(c, old(c), "code")
 //
 //@ func (*converter).VarAssignment
@@ -439,7 +439,7 @@ func specIsHelperName(name string) bool {
 //
 //@ func (*converter).Input
 //@   ensures[C01,C10] result-is-the-fresh-helper: result == specRef(specName(len(c.funcs) > 0, c.funcCounter, specHelperName(old(c.varCounter)), false)) && c.varCounter == old(c.varCounter) + 1 && err == nil
-//@   ensures[C08] read-is-raw: (len(prompt) == 0 ==> appended(c.code, old(c.code), "read -r " + specHelperName(old(c.varCounter)))) && (len(prompt) > 0 ==> appended(c.code, old(c.code), "read -r -p \"" + prompt + "\" " + specHelperName(old(c.varCounter))))
+//@   ensures[C08,C10] read-is-raw: (len(prompt) == 0 ==> appended(c.code, old(c.code), "read -r " + specHelperName(old(c.varCounter)))) && (len(prompt) > 0 ==> appended(c.code, old(c.code), "read -r -p \"" + prompt + "\" " + specHelperName(old(c.varCounter))))
 //
 //@ func (*converter).Copy
 //@   ensures[C03] helper-call-then-length: appended(c.code, old(c.code), "_sch " + specName(len(c.funcs) > 0, c.funcCounter, destination, global) + " " + source, specAssign(specName(len(c.funcs) > 0, c.funcCounter, specHelperName(old(c.varCounter)), false), "$(eval \"echo \\${#${" + specName(len(c.funcs) > 0, c.funcCounter, destination, global) + "}[@]}\")")) && err == nil
